@@ -389,6 +389,19 @@ IDIOMS = [
 ]
 
 
+def gen_deep(rng, g):
+    "A deeply nested but cheap expression (a long left-nested sum) under a called lambda."
+    x, x2, sname = g.fresh("stage"), g.fresh("stage"), g.fresh("helper")
+    if sname in (x, x2):
+        return None
+    n = rng.choice([30, 60, 100, 106, 110, 150, 240])
+    tail = " + 1" * n
+    return rng.choice([
+        f"Select(ds, lambda {x}: (lambda {sname}: {sname}{tail})({x}.x))",
+        f"Select(ds, lambda {x}: Count(Where({x}.jets, lambda {x2}: (lambda {sname}: {sname}{tail} > 3)({x2}.pt))))",
+    ])
+
+
 def gen_idiom(rng, g):
     names = {k: g.fresh("stage") for k in ("x", "x2", "x3", "x4")}
     names.update({k: g.fresh("helper") for k in ("s", "n")})
@@ -403,6 +416,10 @@ def gen_idiom(rng, g):
 def gen_query(rng, names, reuse=0.0, helpers=None):
     if rng.random() < 0.15:
         q = gen_idiom(rng, Gen(rng, names, reuse, helpers))
+        if q:
+            return q
+    if rng.random() < 0.03:
+        q = gen_deep(rng, Gen(rng, names, reuse, helpers))
         if q:
             return q
     for _ in range(50):
@@ -475,7 +492,7 @@ def generate(prop, seed, tier="quick", fault_free=False):
             if w.random() < 0.12:
                 # resource fault: few frames left for the recursive rewrite, as for a much
                 # deeper query.  Failing with RecursionError is fine, a wrong answer is not.
-                op["stack"] = w.choice([40, 70, 110, 160])
+                op["stack"] = w.choice([40, 70, 110, 160, 340, 400])
             ops.append(op)
             n_served += 1
         elif r < 0.55:
